@@ -113,7 +113,11 @@ def _execute(prop, profile: str, source: Source, *, keep_log: bool = False, know
     _worker_init()
     if getattr(prop, "gc_before", False):
         gc.collect()
+    # profile suffix "-eager": same workload on a loop configured with an eager task factory (swarm knob, Python 3.12)
+    eager = profile.endswith("-eager")
+    profile = profile.removesuffix("-eager")
     sim = Sim(source, keep_log=keep_log, **prop.sim_options(profile))
+    sim.eager = eager
     sim.known = known or {}
     sim.known_seen = Counter()
     seams.set_current(sim)
@@ -131,6 +135,9 @@ def _execute(prop, profile: str, source: Source, *, keep_log: bool = False, know
             err = "; ".join(sim.harness_errors)[:3000]
         if err is None and sim.violation is None and sim.outcome in ("deadlock", "cap"):
             err = f"run ended with {sim.outcome} at boundary {sim.boundary} and no oracle claimed it"
+        if eager and isinstance(sim.program, dict):
+            sim.program["loop_task_factory"] = "eager"
+            sim.stats["eager_task_factory"] += 1
         if sim.program is not None:
             sim._hash.update(repr(sim.program).encode())
         res = {
